@@ -45,6 +45,8 @@ def stores_for(ctx, mix, scale=1):
         out.append((pipe.single(gen.fold_prog(rng)), "a.s", "fold"))
     for _ in range(mix.get("csrmem", 0) * k):
         out.append((pipe.single(gen.csr_mem_prog(rng)), "a.s", "csrmem"))
+    for _ in range(mix.get("loopslot", 0) * k):
+        out.append((pipe.single(gen.loop_slot_prog(rng)), "a.s", "loopslot"))
     for _ in range(mix.get("spswitch", 0) * k):
         out.append((pipe.single(gen.sp_switch_prog(rng)), "a.s", "spswitch"))
     for _ in range(mix.get("stack", 0) * k):
